@@ -24,8 +24,11 @@ def rule_update_table(ctx):
     f = ctx.fn(VA + "::update")
     T = ctx.T(f)
 
+    # duplicate detection: `done.contains(k)` (true = duplicate) or `!done.insert(k)` (insert returns false for a duplicate)
+    dup_by_insert = not any(c["q"].endswith("HashSet::contains") for c in T.calls()) and any(c["q"].endswith("HashSet::insert") for c in T.calls())
+
     def a_dup(t):
-        return t[0] == "call" and t[1].endswith("HashSet::contains")
+        return t[0] == "call" and t[1].endswith("HashSet::insert" if dup_by_insert else "HashSet::contains")
 
     def a_member(t):
         return t[0] == "call" and t[1].endswith("Schedule::contains")
@@ -50,6 +53,8 @@ def rule_update_table(ctx):
     names, tab = W.table({"insert": ins, "verify": ver, "err": errs}, start=head)
     bad = []
     for (dup, mem, st, nw, sg), reach in tab.items():
+        if dup_by_insert:
+            dup = not dup     # the atom is `insert returned true` = first occurrence
         elig = (dup is False) and (mem is True) and (st == "None" or nw is True)
         exp_ins = elig and sg is True
         if ("insert" in reach) != exp_ins:
@@ -116,7 +121,10 @@ def rule_all_or_nothing(ctx):
     edges = Q.success_edges(ctx, f, lambda b: b[0] == "call" and b[1] == VA + "::update")
 
     def a_changed(t):
-        return t[0] == "try" and t[1][0] == "call" and t[1][1] == VA + "::update"
+        if t[0] == "try" and t[1][0] == "call" and t[1][1] == VA + "::update":
+            return True
+        # the Ok payload of an explicit match on the result
+        return t[0] == "field" and t[2] == "0" and t[1][0] == "downcast" and t[1][2] == "Ok" and t[1][1][0] == "call" and t[1][1][1] == VA + "::update"
     W = Walker(ctx, f, [Atom("changed", "bool", a_changed, [True, False])])
     for p in pubs:
         ok1 = bool(edges) and cfg.must_pass(p["bb"], edges)
@@ -142,7 +150,40 @@ def rule_order(ctx):
             pb = [chain(x) for x in b[1]]
             ok = [p[1] for p in pa] == [["version"], ["timestamp"]] and [p[1] for p in pb] == [["version"], ["timestamp"]] and pa[0][0] == pa[1][0] and pb[0][0] == pb[1][0] and pa[0][0] != pb[0][0] \
                 and pa[0][0][0] == "param" and pa[0][0][1] == 1 and pb[0][0][1] == 2
-    ctx.ob(R, "is_newer term", ok, "(self.version, self.timestamp) > (b.version, b.timestamp)" if ok else "is_newer = %s" % (show(t) if t else None), f.loc())
+    if not ok:
+        # any other shape: evaluate the returned value under the 9 orderings of (version, timestamp)
+        def side(t, fld):
+            root, names = chain(t)
+            return names[-1:] == [fld] and root[0] == "param" and root[1] in (1, 2) and root[1]
+
+        def mk(fld):
+            def m(a, b):
+                sa, sb = side(a, fld), side(b, fld)
+                if sa == 1 and sb == 2:
+                    return 1
+                if sa == 2 and sb == 1:
+                    return -1
+                return 0
+            return m
+        W = Walker(ctx, f, [Atom("version", "cmp", mk("version"), ["<", "=", ">"]), Atom("timestamp", "cmp", mk("timestamp"), ["<", "=", ">"])])
+        bad, undec = [], 0
+        for v in "<=>":
+            for ts in "<=>":
+                exp = v == ">" or (v == "=" and ts == ">")
+                tr = common.ret_truths(ctx, W, f, {"version": v, "timestamp": ts})
+                if None in tr or not tr:
+                    undec += 1
+                elif tr != {exp}:
+                    bad.append((v, ts, sorted(tr)))
+        if bad:
+            ctx.ob(R, "is_newer term", False, "is_newer is not the strict lexicographic order on (version, timestamp): for (version, timestamp) orderings %s it returns the listed values" % bad[:4], f.loc())
+        elif undec:
+            ctx.note("C18.3 is_newer: %d of 9 orderings could not be evaluated - not decided" % undec)
+            ctx.ob(R, "is_newer term", True, "undecided shape (not reported): %d of 9 orderings not evaluated" % undec, f.loc())
+        else:
+            ctx.ob(R, "is_newer term", True, "is_newer returns true exactly when version is greater, or equal with a greater timestamp (9 orderings evaluated)", f.loc())
+        return
+    ctx.ob(R, "is_newer term", ok, "(self.version, self.timestamp) > (b.version, b.timestamp)", f.loc())
 
 
 def rule_writers(ctx):
